@@ -265,7 +265,11 @@ func (l *lcount) distinct(set, key string) {
 func (l *lcount) nontrivial(key string) {
 	l.mu.Lock()
 	l.nt = append(l.nt, key)
+	full := len(l.nt) >= 4096
 	l.mu.Unlock()
+	if full {
+		l.flush()
+	}
 }
 
 // worker returns a copy of the context with its own counter buffer.
@@ -598,9 +602,13 @@ func (c *hctx) account(st *hstate, owners []string) {
 	c.cnt.distinct("history_node_final_set_pairs", c.ukey+"|"+c.P[st.ref.self]+"|"+qs(S))
 	if st.ref.flags&fEffectiveChange != 0 && len(S) >= 2 && distinctCount(owners) >= 2 {
 		var b strings.Builder
-		for _, e := range st.events {
-			b.WriteByte(e.op)
-			b.WriteByte(byte('0' + e.x))
+		if len(st.events) <= 5 || c.mode == "random" {
+			for _, e := range st.events {
+				b.WriteByte(e.op)
+				b.WriteByte(byte('0' + e.x))
+			}
+		} else { // deeper enumerated histories are distinguished by their shape and final set only
+			b.WriteString(shape + "|" + qs(S))
 		}
 		c.cnt.nontrivial("history|" + c.ukey + "|" + c.P[st.ref.self] + "|" + qs(st.init) + "|" + b.String())
 	}
@@ -863,6 +871,8 @@ func TestHistoryExhaustive(t *testing.T) {
 					}
 				} else if !alone && !everybody && ii != 1+(ui+self)%(len(inits)-2) || self == 3 && ui > 0 {
 					d = 0 // quick: alone, everybody and one ring in between; three of the four nodes in all but the first universe
+				} else if alone && ui > 0 {
+					d = 4
 				}
 				cfg := shuffled(init, rng)
 				if alone && (ui+self)%2 == 0 {
